@@ -480,6 +480,18 @@ def analyse_refs( g, root, rootpath='' ):
             v = n.kw.get( key )
             if isinstance( v, str ):
                 refs.append(( key, reduce_path( compose( path, default_context( n ), v )), v, n ))
+            elif isinstance( v, Closure ):
+                # a callable limit: the data paths it reads ( data[path + '..size'] ) are relative to the node's own context
+                for c in ast.walk( v.node ):
+                    if isinstance( c, ast.Constant ) and isinstance( c.value, str ) and c.value.startswith( '.' ) and ' ' not in c.value:
+                        refs.append(( key + '-callable', reduce_path( ours + c.value ), c.value, n ))
+                for c in ast.walk( v.node ):
+                    if isinstance( c, ast.Attribute ) and c.attr in ( 'pop', 'get' ) and isinstance( c.value, ast.Subscript ):
+                        pass
+                for c in ast.walk( v.node ):
+                    if isinstance( c, ast.Call ) and isinstance( c.func, ast.Attribute ) and c.func.attr in ( 'pop', 'get' ) and c.args \
+                       and isinstance( c.args[0], ast.Constant ) and isinstance( c.args[0].value, str ):
+                        refs.append(( key + '-callable', reduce_path( ours + '.' + c.args[0].value ), c.args[0].value, n ))
         sub = n.sub_initial()
         if sub is not None and not ( 'octets_base' in n.mro or 'words_base' in n.mro ):
             visit( sub, ours )
@@ -538,6 +550,10 @@ def g_ref( ctx ):
             hit = defs.get( p )
             prefix = [ d for d in defs if d.startswith( p + '.' ) ] if not hit else []
             short = label.split( '/' )[-1]
+            if kind.endswith( '-callable' ):
+                if hit and first:
+                    res.ok( src_of( ctx, n.site ), L( n.site ), 'callable %s reads %s' % ( kind.split( '-' )[0], p ), nontrivial=False )
+                continue
             if hit:
                 if kind in ( 'limit', 'repeat' ):
                     if any( int_field( g, h ) for h in hit ) or any( isinstance( h, Decide ) for h in hit ):
@@ -672,6 +688,9 @@ EXEMPT_CONSUMERS = {
     ( 'parser', 'unrecognized' ): 'CPF item of an unrecognised type: by design parses the remainder of the CPF into .input (no limit is given to it)',
 }
 
+LENGTH_NAMES = ( 'length', 'size', 'count', 'number' )
+LENGTH_EXEMPT = { 'remaining_path_size': 'informational: words of the original route path not yet processed, does not prefix data' }
+
 # machines that are themselves unbounded by design and are only ever instantiated under a limit / run on a finite buffer
 TAIL_OK = {
     'typed_data(USINT)': 'stand-alone typed_data: every in-repo instantiation passes limit= or is the tail of a limited region (checked per use)',
@@ -719,8 +738,29 @@ def g_bound( ctx ):
             else:
                 res.bad( src_of( ctx, n.site ), L( n.site ), '%s: %s has no enclosing limit' % ( short, kind ),
                          'it can consume past its element into whatever follows (a corrupt inner length runs past the frame)', func=label )
-    if bounded < 14:
+    if bounded < 14 and not res.findings:
         raise AnalysisError( 'G-BOUND: only %d bounded regions found (floor 14)' % bounded )
+    # every parsed length / size / count field is used: some limit= / repeat= (string or callable) refers to it
+    seen_len = set()
+    for label, root in sorted( roots.items() ):
+        defs, refs = analyse_refs( g, root )
+        refd = { p for k, p, raw, n in refs }
+        for p, ns in defs.items():
+            last = p.split( '.' )[-1]
+            if not ( last in LENGTH_NAMES or last.endswith( '_size' )) or last in LENGTH_EXEMPT:
+                continue
+            holders = [ n for n in ns if isinstance( n, Node ) and int_field( g, n ) ]
+            if not holders:
+                continue
+            key = ( holders[0].site, last, p in refd )
+            if key in seen_len:
+                continue
+            seen_len.add( key )
+            if p in refd:
+                res.ok( src_of( ctx, holders[0].site ), L( holders[0].site ), 'length field %s bounds/repeats what follows' % '.'.join( p.split( '.' )[-2:] ))
+            else:
+                res.bad( src_of( ctx, holders[0].site ), L( holders[0].site ), '%s: parsed length field %r is not used by any limit= / repeat=' % ( label.split( '/' )[-1], '.'.join( p.split( '.' )[-3:] )),
+                         'the element it prefixes is no longer confined to its declared length: an inconsistent inner length lets it consume what follows', func=label )
     return res
 
 
